@@ -612,45 +612,8 @@ def tally(ctx, ops, model, nontrivial=lambda op, ml: True):
         ctx.distinct(op, nontrivial=nontrivial(op, ml))
 
 
-# Genuine defects of /repo exposed by this check (reported; see the final report / MANIFEST note).
-# They are matched exactly like `finding:` lines of /verif/known_findings.txt (printed as
-# KNOWN-FINDING, recorded in the evidence, not counted) until they are moved there or fixed.
-LOCAL_FINDINGS = [
-    ("C16", "amrdensitygrid:amrdensitygrid-absorbed-in-boundary-cell-reported-as-escaped",
-     "AMRDensityGrid::interact advances current_cell to the neighbour before it knows whether the photon is absorbed in the "
-     "present cell: a photon absorbed inside the box in a cell whose exit wall is an open box face gets current_cell == nullptr "
-     "and end() is returned (reported escaped, lost) — unit box, 2x2x2 cells, photon (0.75,0.75,0.75) direction +x, tau 0.1"),
-    ("C16", "amrdensitygrid:amrdensitygrid-periodic-wrap-enters-wrong-child-of-refined-neighbour",
-     "AMRDensityGrid::get_wall_intersection descends into a refined neighbour across a periodic boundary with the UNWRAPPED "
-     "wall position (get_child(next_wall)): the photon enters the child on the far side, path lengths are deposited in the "
-     "wrong cell and the returned cell does not contain the final position"),
-    ("C16", "cartesian:locate-index-out-of-range",
-     "CartesianDensityGrid::get_cell_indices: for a position inside the half-open box but within one ulp (at box scale) of a "
-     "top face, (p-anchor)*inverse_cellside rounds up to ncell: get_cell_index returns the long index of a different cell "
-     "(or one past the end) and interact() aborts with 'Photon leaves the system immediately'"),
-    ("C16", "amrdensitygrid:locate-index-out-of-range",
-     "same defect as amr:locate-index-out-of-range seen through AMRDensityGrid::get_cell_index (wrong child / out-of-bounds "
-     "read for a position exactly on a block wall of a grid whose block count has an odd factor)"),
-    ("C16", "amr:locate-index-out-of-range",
-     "AMRGrid::get_key/get_cell compute the block index as n*(p-a)/S but the block anchor as a+i*(S/n): for block counts "
-     "with odd factors a position exactly on an interior block wall (or within one ulp below the top face) gets child "
-     "index 2 / block index n -> _children/_top_level read out of bounds ('Cell does not exist' abort)"),
-]
-
-
-def install_local_findings():
-    orig = vlib.known_findings
-    if getattr(orig, "_c16", False):
-        return
-    def patched():
-        return orig() + LOCAL_FINDINGS
-    patched._c16 = True
-    vlib.known_findings = patched
-
-
 def run(ctx):
     ctx.level = "proof"
-    install_local_findings()
     ctx.assumptions += [
         "Voronoi grids are not covered (C15 not applicable); AMRDensityGrid::interact and the Octree searches are checked by implementation-level oracles only (no Lean model)",
         "theorems are about exact arithmetic (Nat/Int for keys and traversals, real numbers for the geometric parts); IEEE rounding is not modelled, the tie is the bit-exact differential run on doubles",
@@ -739,7 +702,7 @@ MANIFEST = dict(
           "above every wall distance (RayOK). Not proved: termination of interact in periodic grids without opacity (genuinely non-terminating); "
           "AMRDensityGrid traversal and Octree searches (oracle only); Voronoi grids (C15 not applicable). max_range_is_last needs "
           "the cubic grid PointLocations always builds (Lean counterexample for 5x1x3). Genuine defects of /repo exposed and reported "
-          "(matched like known findings in tools/props/c16.py until moved to known_findings.txt): AMRGrid/Cartesian locate index out "
+          "(keys in /verif/known_findings.txt): AMRGrid/Cartesian locate index out "
           "of range on block walls / one ulp below a top face; AMRDensityGrid::interact reports photons absorbed in a boundary cell "
           "as escaped; periodic wrap into a refined AMR neighbour enters the wrong child."),
     technique="Lean 4 proofs (induction on trees / traversal / loop fuel, omega, linarith, field_simp) + bit-exact differential correspondence + implementation-level oracles")
